@@ -42,6 +42,8 @@ type c17Scn struct {
 	// which every non-default scheduling choice costs 1 (preemption bounding explodes beyond ~4 goroutines)
 	deviation bool
 	tail      int64 // virtual time to keep running after the actors have been started (default one hour)
+	// thoroughBound: the thorough tier's bound for this scenario, where two is out of reach (0: two)
+	thoroughBound int
 }
 
 func c17Wrap(sc c17Scn, tier string) hx.Unit {
@@ -51,6 +53,9 @@ func c17Wrap(sc c17Scn, tier string) hx.Unit {
 	u.Bound = 1
 	if tier == "thorough" {
 		u.Bound = 2
+		if sc.thoroughBound > 0 {
+			u.Bound = sc.thoroughBound
+		}
 	}
 	u.Body = func() {
 		*done, *total = 0, 0
@@ -256,7 +261,7 @@ func init() {
 	hx.Register(&hx.Prop{
 		ID:    "C17",
 		Title: "Vouch's own concurrency never corrupts its state",
-		Rule: "overlap scenarios (operations that run on different goroutines in production: scheduler calls, cache lookups/events/clean, block relay refresh / registration round / lookups / auction / REST registrations; validators manager, dirk and wallet refresh vs queries; two attestation runs; sync messenger message / verification / pruning; controller head event vs attestation job vs pending query, with and without reorg; proposal unblinding with two relays; and, beyond the anchored files, each of the 14 data strategies with two nodes (answers at one instant, answer+error, late second answer, two overlapping calls), both relay auction strategies with two relays, the multinode submitter under two simultaneous submissions, sync aggregator head-root recording vs aggregation) explored over all interleavings within the preemption bound (quick 1, thorough 2) in a -race build whose token hand-offs carry no happens-before edge; a ThreadSanitizer report with both accesses in vouch code is a violation; " +
+		Rule: "overlap scenarios (operations that run on different goroutines in production: scheduler calls, cache lookups/events/clean, block relay refresh / registration round / lookups / auction / REST registrations; validators manager, dirk and wallet refresh vs queries; two attestation runs; sync messenger message / verification / pruning; controller head event vs attestation job vs pending query, with and without reorg; proposal unblinding with two relays; and, beyond the anchored files, each of the 14 data strategies with two nodes (answers at one instant, answer+error, late second answer, two overlapping calls), both relay auction strategies with two relays, the multinode submitter under two simultaneous submissions, sync aggregator head-root recording vs aggregation) explored over all interleavings within the preemption bound (quick 1, thorough 2; the controller scenarios with a reorg keep one deviation in both tiers) in a -race build whose token hand-offs carry no happens-before edge; a ThreadSanitizer report with both accesses in vouch code is a violation; " +
 			"non-trivial = the execution had a contended scheduling point; distinct = distinct scenarios with all operations completed",
 		Assumptions: []string{
 			"ThreadSanitizer's vector-clock detector is exact for the explored schedule; shimmed primitives perform the real synchronisation operation, model-only ones (Cond, semaphore, WaitGroup) are annotated with release/acquire",
